@@ -6,7 +6,7 @@
 From Coq Require Import Reals ZArith List Bool Lra Lia SpecFloat.
 From Coquelicot Require Import Coquelicot.
 From Sky Require Import Result PyList Num NumR G_grid M_Grid M_GridSF P_Grid P_GridInterp P_GridSF
-  P_GridCall P_GridLocal P_GridIrr P_GridExt.
+  P_GridCall P_GridLocal P_GridIrr P_GridExt P_GridCache.
 Import ListNotations.
 Open Scope R_scope.
 
@@ -128,6 +128,14 @@ Theorem C15_irregular_lower_upper : forall (erf : R -> R) (grid : list R) (v g0 
 Proof. exact irregular_lower_upper. Qed.
 Print Assumptions C15_irregular_lower_upper.
 
+Theorem C15_irregular_nearest : forall (erf : R -> R) (grid : list R) (v : R),
+  (fix incr (l : list R) : Prop := match l with a :: ((b :: _) as r) => a < b /\ incr r | _ => True end) grid ->
+  grid <> [] ->
+  exists ne, irr_nearest (RNum erf) grid v = Ok ne /\ In ne grid /\
+             forall y, In y grid -> Rabs (ne - v) <= Rabs (y - v).
+Proof. exact irregular_nearest. Qed.
+Print Assumptions C15_irregular_nearest.
+
 (* ---- interpolation, exact arithmetic *)
 Theorem C15_linear_reproduces_grid_points : forall (erf : R -> R) (a b d n : Z) (F : R -> R),
   (0 <= d)%Z -> (0 < b)%Z -> (0 <= n)%Z ->
@@ -227,11 +235,36 @@ Theorem C15_linear_cache_key : forall (erf : R -> R) (a b d : Z) (F : R -> R) (x
 Proof. exact linear_params_determined_by_x0. Qed.
 Print Assumptions C15_linear_cache_key.
 
+Theorem C15_linear_two_calls_consistent : forall (erf : R -> R) (a b d : Z) (Fm : manifold)
+    (idxs : list (nat * nat)) (id : Z) (xs0 xs : list R) (xof0 xof : nat -> R),
+  (0 <= d)%Z -> (0 < b)%Z ->
+  let g := {| g_lb := IZR a / IZR (10 ^ d); g_delta := IZR b / IZR (10 ^ d); g_dec := d |} in
+  (forall s e, In (s, e) idxs -> bcast xs0 s = Ok (xof0 s) /\ bcast xs s = Ok (xof s)
+                                 /\ g_lb g <= xof0 s /\ g_lb g <= xof s) ->
+  (length xs0 = 1 \/ length xs = 1 \/ length xs0 = length xs)%nat ->
+  exists v0 g0 st, lin_call (RNum erf) g Fm idxs None id xs0 = Ok (v0, g0, st) /\
+  exists st', lin_call (RNum erf) g Fm idxs st id xs =
+    Ok (map (fun se => lin_value1 (RNum erf) g (fun t => Fm id t (fst se) (snd se)) (xof (fst se))) idxs,
+        map (fun se => lin_grad1 (RNum erf) g (fun t => Fm id t (fst se) (snd se)) (xof (fst se))) idxs, st').
+Proof. exact linear_second_call_consistent. Qed.
+Print Assumptions C15_linear_two_calls_consistent.
+
 Theorem C15_parabola_cache_key : forall (erf : R -> R) (g : gdesc) (F : R -> R) (x x' : R),
   round_nearest (RNum erf) g x = round_nearest (RNum erf) g x' ->
   par_params (RNum erf) g F x = par_params (RNum erf) g F x'.
 Proof. exact parabola_params_determined_by_x1. Qed.
 Print Assumptions C15_parabola_cache_key.
+
+Theorem C15_parabola_two_calls_consistent : forall (erf : R -> R) (g : gdesc) (Fm : manifold)
+    (idxs : list (nat * nat)) (id : Z) (xs0 xs : list R) (xof0 xof : nat -> R),
+  (forall s e, In (s, e) idxs -> bcast xs0 s = Ok (xof0 s) /\ bcast xs s = Ok (xof s)) ->
+  (length xs0 = 1 \/ length xs = 1 \/ length xs0 = length xs)%nat ->
+  exists v0 g0 st, par_call (RNum erf) g Fm idxs None id xs0 = Ok (v0, g0, st) /\
+  exists st', par_call (RNum erf) g Fm idxs st id xs =
+    Ok (map (fun se => par_value1 (RNum erf) g (fun t => Fm id t (fst se) (snd se)) (xof (fst se))) idxs,
+        map (fun se => par_grad1 (RNum erf) g (fun t => Fm id t (fst se) (snd se)) (xof (fst se))) idxs, st').
+Proof. exact parabola_second_call_consistent. Qed.
+Print Assumptions C15_parabola_two_calls_consistent.
 
 (* ---- non-vacuity *)
 Example C15_ex_fine_grid_self_consistent :
